@@ -985,6 +985,22 @@ def summarize(check, tier, seed, records, wall, extra_bounded=None):
               file=sys.stderr)
     for u in undecided[:10]:
         print("UNDECIDED %s: %s" % (u["name"], u["detail"]), file=sys.stderr)
+    by_h = {}
+    for rec in records:
+        if rec.get("kind") == "float":
+            continue
+        h = by_h.setdefault(rec["harness"], {"shapes": 0, "obligations": 0, "discharged": 0, "secs": 0.0})
+        h["shapes"] += 1
+        h["obligations"] += len(rec["results"])
+        h["discharged"] += sum(1 for r in rec["results"] if r["status"] == "discharged")
+        h["secs"] = round(h["secs"] + rec.get("secs", 0), 2)
+    for ref, h in by_h.items():
+        try:
+            obj = load_harness(ref)
+            h["function"] = getattr(obj, "function", "")
+            h["contract"] = " ".join((obj.__doc__ or "").split())[:400]
+        except Exception:
+            pass
     ev = {
         "property_id": prop,
         "tier": tier,
@@ -1000,6 +1016,7 @@ def summarize(check, tier, seed, records, wall, extra_bounded=None):
             "undecided": len(undecided),
             "checker_cmd": "./vcheck %s --tier %s" % (prop, tier),
             "functions_under_contract": check.functions,
+            "contracts": by_h,
             "equalities_cross_checked_numerically": sum(r.get("crosschecked", 0) for r in records),
             "shapes_run": len(records),
             "sym_tasks": sum(1 for r in records if r.get("kind") != "float"),
